@@ -214,7 +214,8 @@ Record case := mkCase {
   c_generic : option bool;        (* for a model: read_model_from_string(convert_model(m,'generic').code) == m *)
   c_generic_file : option bool;   (* for a model: write_model of the generic model, read_model of the file, == m;
                                      Some false also when reading raises *)
-  c_encoded : option pyv          (* for a model: json.loads(hashing._encode(m)), the dictionary ModelHash digests *)
+  c_encoded : option pyv;         (* for a model: json.loads(hashing._encode(m)), the dictionary ModelHash digests *)
+  c_generic_eq : option bool      (* for a model: convert_model(m, 'generic') == m *)
 }.
 
 Definition preds_idx (c : csys strG) : list nat :=
@@ -234,6 +235,8 @@ Definition verdict (c : case) : list nat :=
   tag (match c_back_json c with Some b => obool_eqb (obj_eq b x) (c_eq_json c) | None => true end) 6 ++
   tag (match x, c_out_preds c with OCs s, Some l => list_eqb Nat.eqb (preds_idx s) l | _, _ => true end) 7 ++
   tag (match x, c_encoded c with OModel m, Some e => pyv_same (normalise (model_encode strG m)) e | _, _ => true end) 10 ++
+  tag (match x, c_generic_eq c with OModel m, Some b => Bool.eqb (model_eq strG (generic_convert strG m) m) b | _, _ => true end) 43 ++
+  tag (match c_generic_eq c with Some false => false | _ => true end) 44 ++
   (* the property on the implementation's own answers *)
   tag (match c_eq_back c with Some true => true | _ => false end) 11 ++
   tag (negb j || match c_eq_json c with Some true => true | _ => false end) 12 ++
@@ -244,7 +247,8 @@ Definition verdict (c : case) : list nat :=
   tag j 20 ++
   (* guards *)
   tag (derivs_free x) 201 ++ tag (int_key_free x) 203 ++
-  tag (obj_no_nan x) 205 ++ tag (graphs_ok x) 206.
+  tag (obj_no_nan x) 205 ++ tag (graphs_ok x) 206 ++
+  tag (match x with OModel m => String.eqb (m_value_type strG m) "PREDICTION" | _ => true end) 223.
 
 (* ------------------------------------------------------------------------------------------ *)
 (* two objects: ==, dictionaries, keys                                                        *)
@@ -394,9 +398,13 @@ Definition opyv_same (a b : option pyv) : bool :=
   match a, b with Some x, Some y => pyv_same x y | None, None => true | _, _ => false end.
 Definition has_path (r : results jtbl jtbl) : bool :=
   existsb (fun nf => match snd nf with FPath _ _ _ => true | _ => false end) (r_fields _ _ r).
+(* ModelfitResults.gradients_iterations left at its class default, the tuple (None,) *)
+Definition gradients_default (r : results jtbl jtbl) : bool :=
+  existsb (fun nf => String.eqb (fst nf) "gradients_iterations" &&
+                     match snd nf with FPlain _ _ (PTuple [PNone]) => true | _ => false end) (r_fields _ _ r).
 Definition rverdict (c : rcase) : list nat :=
   let r := rc_obj c in
   tag (opyv_same (option_map normalise (jenc r)) (rc_json c)) 40 ++
   tag (match rc_json c with Some j => oresults_same (jdec j) (rc_back c) | None => true end) 41 ++
   tag (rc_equal c) 42 ++
-  tag (results_supported jtbl jtbl r) 220 ++ tag (negb (has_path r)) 221.
+  tag (results_supported jtbl jtbl r) 220 ++ tag (negb (has_path r)) 221 ++ tag (negb (gradients_default r)) 222.
